@@ -249,7 +249,8 @@ Print Assumptions C01_slashed_unbonding_halts_refuted.
 (* x/shareclass: a blocked recipient (module account) named in MsgNonVotingUndelegate: the payout
    is refused, the end blocker fails at every block from the completion on (repaired: rejected) *)
 Theorem C01_blocked_recipient_halts_refuted :
-  sc_end 12000000000 {| sc_queue := [ShareClass.mkUnb 3 900 10000000000 50000]; sc_mod_bond := 0; sc_released := 50000; sc_blocked := [3] |}
+  sc_end 12000000000 {| sc_queue := [ShareClass.mkUnb 3 900 10000000000 50000]; sc_mod_bond := 0; sc_released := 50000;
+                          sc_staking_times := [10000000000]; sc_slash_loss := 0; sc_blocked := [3] |}
   = Err E_BLOCKED.
 Proof. exact sc_blocked_recipient_halts. Qed.
 Print Assumptions C01_blocked_recipient_halts_refuted.
